@@ -5,7 +5,7 @@
 From AQ Require Import lib.Base lib.Tok model.RangeSet model.RecBase model.Pacer model.Reno model.Cubic
   model.Recovery model.RecoveryFloat gen.C08Consts
   proofs.RecoveryLemmas proofs.RecoveryProofs proofs.RecoveryPres proofs.RenoProofs proofs.CubicProofs
-  proofs.C08Theorems proofs.FlightBudget.
+  proofs.C08Theorems proofs.FlightBudget proofs.CubicFloor.
 From AQ Require gen.C13Consts model.Builder proofs.BuilderProofs proofs.BuilderFlight.
 
 (* bytes_in_flight = sum of sent_bytes over tracked in-flight packets of all spaces;
@@ -121,6 +121,20 @@ Theorem executable_instance_reno :
 Proof. exact float_instance_reno. Qed.
 Print Assumptions executable_instance_reno.
 
+(* CUBIC, executable PrimFloat instance, NO FloatAnomaly guard: the floor holds on every history as long as no
+   int(inf / nan) occurred (cb_anom: in Python an OverflowError / ValueError would have escaped).  Proved from the
+   IEEE-754 semantics of the primitive floats (Flocq + the standard library's FloatAxioms; proofs/FloatMono.v):
+   rounding and truncation are monotone, float(int) is correctly rounded, products / quotients of non-negative floats
+   are non-negative, int(float(w) * 1.5) >= w.  max_datagram_size < 2^52 makes the floor itself a binary64 number. *)
+Theorem cwnd_floor_cubic :
+  forall n irtt mss pcav o ops st evs,
+  0 < mss < 2 ^ 52 -> Forall (op_nn (T:=PrimFloat.float)) ops ->
+  run FF (cubic_cc FF) (rec_init FF n irtt mss pcav (cubic_init FF mss o)) ops = (st, evs) ->
+  cb_anom (r_cc st) = false ->
+  K_MINIMUM_WINDOW * mss <= cb_cwnd (r_cc st) /\ K_MINIMUM_WINDOW = 2.
+Proof. exact cwnd_floor_cubic_ff. Qed.
+Print Assumptions cwnd_floor_cubic.
+
 (* ---------- flight budget (last sentence of the property) ----------
    Builder side (model/Builder.v, C13's model of QuicPacketBuilder): with max_flight_bytes = mf, for every
    configuration and every op history respecting the caller discipline of connection.py (BuilderFlight.fl_disciplined:
@@ -135,6 +149,20 @@ Theorem flight_le_budget :
     BuilderFlight.fl_sum (Builder.b_pkts (fst (BuilderFlight.run_pk c (Builder.init_st c pn) ops))) <= Z.max 0 mf.
 Proof. exact BuilderFlight.flight_le_budget_all. Qed.
 Print Assumptions flight_le_budget.
+
+(* the builder's own account _flight_bytes (packets in flight + datagram-level Initial padding, i.e. what is on the
+   wire) obeys the same bound and dominates the in-flight bytes of the packets *)
+Theorem flight_wire_le_budget :
+  forall (c : Builder.cfg) (mf pn : Z) (ops : list Builder.op),
+    Builder.c_max_flight c = Some mf -> BuilderProofs.wf_cfg c -> BuilderProofs.crypto_fits c ->
+    BuilderFlight.fl_disciplined c (Builder.init_st c pn) ops = true ->
+    0 <= Builder.b_flight (fst (Builder.run c (Builder.init_st c pn) ops)) <= Z.max 0 mf /\
+    (Builder.b_dginit (fst (Builder.run c (Builder.init_st c pn) ops)) = true ->
+     BuilderFlight.fl_sum (snd (BuilderFlight.run_pk c (Builder.init_st c pn) ops)) +
+     BuilderFlight.fl_sum (Builder.b_pkts (fst (Builder.run c (Builder.init_st c pn) ops)))
+       <= Builder.b_flight (fst (Builder.run c (Builder.init_st c pn) ops))).
+Proof. exact BuilderFlight.flight_wire_le_budget. Qed.
+Print Assumptions flight_wire_le_budget.
 
 (* Composition with on_packet_sent, for ANY recovery state st (so after any history), any controller satisfying
    cc_spec and any budget mf: one datagrams_to_send call (builder session, then on_packet_sent for every packet built)
